@@ -10,6 +10,7 @@ import (
 	"github.com/ontio/ontology-crypto/ec"
 	"github.com/ontio/ontology-crypto/keypair"
 	"github.com/polynetwork/poly/common"
+	ccom "github.com/polynetwork/poly/native/service/cross_chain_manager/common"
 	tp "github.com/polynetwork/poly/txnpool/proc"
 	"polyverif/internal/hx"
 )
@@ -178,6 +179,26 @@ func otherEncoding(pk string, how int) string {
 		}
 	}
 	return "1202" + pk // PK_ECDSA, P256 label, then the compressed point
+}
+
+// makeTxExtra: a serialized MakeTxParam with the given cross chain id.
+func makeTxExtra(ccid []byte, n byte) []byte {
+	sink := common.NewZeroCopySink(nil)
+	(&ccom.MakeTxParam{TxHash: []byte{n, 2, 3}, CrossChainID: ccid, FromContractAddress: []byte{9}, ToChainID: 2,
+		ToContractAddress: []byte{8}, Method: "unlock", Args: []byte{n}}).Serialization(sink)
+	return sink.Bytes()
+}
+
+// depositTok: "<chain> <height> <extra> <vote id> <cross chain id|none>" of a deposit op.
+func depositTok(chain uint64, height uint32, extra []byte) string {
+	us := common.NewZeroCopySink(nil)
+	(&ccom.EntranceParam{SourceChainID: chain, Height: height, Extra: extra}).Serialization(us)
+	ccid := "none"
+	mtp := new(ccom.MakeTxParam)
+	if err := mtp.Deserialization(common.NewZeroCopySource(extra)); err == nil {
+		ccid = hx.Hex(mtp.CrossChainID)
+	}
+	return fmt.Sprintf("%d %d %s %s %s", chain, height, hx.Hex(extra), sha256hex(us.Bytes()), ccid)
 }
 
 func hexName(s string) string { return hex.EncodeToString([]byte(s)) }
@@ -603,13 +624,21 @@ func (f *gov) genVotes(s *sc) {
 		s.start(fmt.Sprintf("votes-N%d-%d", n, h), n, 2, 100000)
 		ids := []string{hx.Hex(r.Rng.Bytes(32)), hx.Hex(r.Rng.Bytes(32)), hx.Hex(r.Rng.Bytes(7))}
 		subjects := [][]byte{r.Rng.Bytes(40), r.Rng.Bytes(3)}
+		// source transactions voted through the vote handler: two payloads with the same cross chain id on one chain
+		// (the second release must be refused as already done), one on another chain, one that does not decode
+		cc := r.Rng.Bytes(8)
+		deposits := []string{depositTok(3, 100, makeTxExtra(cc, 1)), depositTok(3, 101, makeTxExtra(cc, 2)),
+			depositTok(4, 100, makeTxExtra(cc, 1)), depositTok(3, 7, r.Rng.Bytes(5))}
 		var prev actor
 		for i := 0; i < 30; i++ {
 			if r.Rng.Chance(1, 10) {
 				f.poolChange(s)
 			}
 			sg, c := s.approver(&prev)
-			if r.Rng.Chance(3, 5) {
+			if r.Rng.Chance(1, 4) {
+				d := deposits[r.Rng.Intn(len(deposits))]
+				s.do("deposit %s %s %s", sg, c, d)
+			} else if r.Rng.Chance(3, 5) {
 				s.do("vote %s %s %s", sg, ids[r.Rng.Intn(len(ids))], c)
 			} else {
 				sub := subjects[r.Rng.Intn(len(subjects))]
@@ -624,6 +653,9 @@ func (f *gov) genVotes(s *sc) {
 			s.fullRound(func(sg, c string) string {
 				return fmt.Sprintf("sig %s %s 1 %s %s %s", sg, c, hx.Hex(sub), hx.Hex(r.Rng.Bytes(2)), sha256hex(sub))
 			})
+		}
+		for _, d := range deposits {
+			s.fullRound(func(sg, c string) string { return fmt.Sprintf("deposit %s %s %s", sg, c, d) })
 		}
 		s.do("dump")
 	}
